@@ -21,6 +21,8 @@
    (C14_genum_values_sortable); mixed signedness cannot occur inside one Go type.            *)
 From Coq Require Import List Bool ZArith String Permutation Sorted.
 From GT Require Import GSortModel GSortProofs GenDetModel GenDetProofs Base.SortU.
+From GT Require Import GenDetStateModel GenDetStateProofs.
+From GT Require Import GenDetWholeModel GenDetWholeProofs.
 Import ListNotations.
 
 (* --- the two generic facts ------------------------------------------------------------ *)
@@ -136,6 +138,17 @@ Theorem C14_use_name_inv : forall pi name h, imap_inv (ih_imports h) -> iter_ok 
   imap_inv (ih_imports (use_name pi name h)).
 Proof. exact use_name_inv. Qed.
 
+(* unusedName (fix 0af0409): `bound` ranges over the map and stops at the first entry whose alias
+   is the candidate — an existsb: the answer, and with it the name chosen for an on-demand
+   import, is the same in every order *)
+Theorem C14_name_bound : forall pi pi' scope cand h, iter_ok pi -> iter_ok pi' ->
+  name_bound pi scope cand h = name_bound pi' scope cand h.
+Proof. exact name_bound_indep. Qed.
+Theorem C14_unused_name : forall itoa pis pis' scope name h fuel,
+  (forall n, iter_ok (pis n)) -> (forall n, iter_ok (pis' n)) ->
+  unused_name itoa pis scope name h fuel = unused_name itoa pis' scope name h fuel.
+Proof. exact unused_name_indep. Qed.
+
 (* GetActive: the in-use entries of the map (map order), then the in-use shadowed ones (slice
    order), sort.Slice by (PkgPath, Alias).  Assumed: entries with equal (path, alias) are
    equal — an alias names one import spec of a Go file; the only repeatable name is `_`, and
@@ -195,6 +208,113 @@ Theorem C14_iface_comment_lookup : forall name pi pi' promoted own to_add,
   comment_of name (iface_methods pi promoted own to_add) =
   comment_of name (iface_methods pi' promoted own to_add).
 Proof. exact iface_comment_indep. Qed.
+
+(* --- whole invocations -------------------------------------------------------------------- *)
+(* The theorems above are per step.  Composed per generator (GenDetWholeModel.v) — gsort's
+   composition is C14_gsort itself — with the key-distinctness hypotheses collected into one
+   well-formedness predicate of the INPUT, which states what Go's type checker guarantees of a
+   package that compiles (names of a struct's fields / of a package's constants are distinct). *)
+
+(* gerror: the rows handed to the template (fields, FieldsToPrint, FieldsToClone per type, in
+   -types order) are the same for all outcomes of the three sorts *)
+Theorem C14_gerror_whole : forall types srt srtp srtc srt' srtp' srtc',
+  wf_gerror_in types ->
+  sort_ok efield_lt srt -> sort_ok efield_lt srtp -> sort_ok efield_lt srtc ->
+  sort_ok efield_lt srt' -> sort_ok efield_lt srtp' -> sort_ok efield_lt srtc' ->
+  gerror_table srt srtp srtc types = gerror_table srt' srtp' srtc' types.
+Proof. exact gerror_table_indep. Qed.
+(* genum, one enum type: sort of the values, sort of every trait column, processDuplicates, sort of
+   the traits.  Value.Less admits no sort FUNCTION on arbitrary values (C14_value_less_no_global_sort),
+   so a run is a relation `genum_run input output`; it is functional: whatever the runtime
+   chooses, two runs hand the same values and traits to the template *)
+Theorem C14_genum_whole : forall i o o',
+  wf_genum_in i -> genum_run i o -> genum_run i o' -> o = o'.
+Proof. exact genum_run_functional. Qed.
+(* ... and total on inputs of one signedness (the constants of one Go type) *)
+Theorem C14_genum_whole_exists : forall i sg,
+  (forall v, In v (gi_consts i) -> ev_signed v = sg) ->
+  (forall t x, In t (gi_traits i) -> In x (td_insts t) -> ev_signed (ti_owner x) = sg) ->
+  exists o, genum_run i o.
+Proof. exact genum_run_exists. Qed.
+
+(* --- the package state before the run ---------------------------------------------------- *)
+(* "runs made while a previous output file already sits in the package all write byte-identical
+   files".  GenDetStateModel.v makes the state of the package directory an input of a
+   generation: LoadPackages type-checks every file of the package, the file at the output path
+   included; the one thing the generators read from it that a previous output can change is
+   genum's "does the type of this parsable trait implement json/yaml/text Unmarshaler", which
+   picks the decoding strategy (`decode_plan`); everything else in the output is drawn from
+   the definition file alone.                                                                  *)
+
+(* CURRENT code (fix ac1d647: genum loads the package with the file at the output path overlaid
+   by a bare package clause — the previous content of that file is no input of the generation
+   any more; fix d8826bb: a trait type that is an enum of this invocation is described by what
+   the invocation generates).  Whatever sits at the output path — nothing, the previous output,
+   the output of another -types list or of other switches, a foreign file — the plan is the
+   same: no hypothesis on the definition or on the state. *)
+Theorem C14_prev_output : forall iv src st st' ts,
+  genum_plan iv src st ts = genum_plan iv src st' ts.
+Proof. exact plan_any_state. Qed.
+(* ... namely what the previous stage (d8826bb) produced on a fresh package *)
+Theorem C14_prev_output_is_fresh : forall iv src st ts,
+  genum_plan iv src st ts = genum_plan_d8826bb iv src PFresh ts.
+Proof. exact plan_is_fresh_d8826bb. Qed.
+
+(* record of the stage d8826bb .. ac707f2 (trait types of the invocation described by the
+   invocation, but the package still loaded with whatever sat at the output path): any previous
+   output of the SAME -types list was harmless ... *)
+Theorem C14_prev_output_d8826bb : forall iv src json yaml text ts,
+  genum_plan_d8826bb iv src (PPrev (genum_declares (iv_types iv) json yaml text)) ts
+  = genum_plan_d8826bb iv src PFresh ts.
+Proof. exact plan_own_output_d8826bb. Qed.
+Theorem C14_state_blind_d8826bb : forall iv src st ts,
+  state_blind iv st ts -> genum_plan_d8826bb iv src st ts = genum_plan_d8826bb iv src PFresh ts.
+Proof. exact plan_state_blind_d8826bb. Qed.
+(* ... stale outputs of OTHER -types lists only when every parsable trait typed by a type of the
+   old list is typed by a type of the new list ... *)
+Theorem C14_stale_output_d8826bb_partial : forall iv src types' json yaml text ts,
+  covers (iv_types iv) types' ts ->
+  genum_plan_d8826bb iv src (PPrev (genum_declares types' json yaml text)) ts
+  = genum_plan_d8826bb iv src PFresh ts.
+Proof. exact plan_stale_output_d8826bb. Qed.
+(* ... and not in general (finding C14-genum-stale-dropped-type, found by the farm's stale-output
+   history on the feedback stream; repaired by ac1d647) *)
+Theorem C14_stale_output_d8826bb_refuted :
+  exists iv src types' json yaml text ts,
+    genum_plan_d8826bb iv src (PPrev (genum_declares types' json yaml text)) ts
+    <> genum_plan_d8826bb iv src PFresh ts.
+Proof. exact stale_superset_refuted. Qed.
+
+(* the code up to c36dccd asked go/types about every trait type: kept as a record *)
+Theorem C14_prev_output_orig_refuted :
+  exists src types json yaml text ts,
+    genum_plan_orig src (PPrev (genum_declares types json yaml text)) ts
+    <> genum_plan_orig src PFresh ts.
+Proof. exact prev_output_orig_refuted. Qed.
+Theorem C14_prev_output_orig_partial : forall src types json yaml text ts,
+  no_selfref types ts ->
+  genum_plan_orig src (PPrev (genum_declares types json yaml text)) ts = genum_plan_orig src PFresh ts.
+Proof. exact plan_own_output_orig. Qed.
+
+(* the audit's counterexample (`Red, _Kind = Color(iota), KA`, -types Kind,Color,
+   -parsableByTraits=Kind): violates no_selfref; the old code decodes Kind by the integer cast when
+   fresh and natively over its previous output; the current code natively both times; the residual
+   (-types Color alone over the old output) is outside `covers` *)
+Example C14_ex_selfref_counterexample :
+  ~ no_selfref cx_types cx_traits
+  /\ map fst (genum_plan_orig [] PFresh cx_traits) = [[]; []; []]
+  /\ map fst (genum_plan_orig [] (PPrev (genum_declares cx_types true true true)) cx_traits)
+     = [cx_traits; cx_traits; []]
+  /\ map fst (genum_plan cx_inv [] PFresh cx_traits) = [cx_traits; cx_traits; []]
+  /\ genum_plan cx_inv [] (PPrev (genum_declares cx_types true true true)) cx_traits
+     = genum_plan cx_inv [] PFresh cx_traits
+  /\ genum_plan cx_inv_dropped [] (PPrev (genum_declares cx_types true true true)) cx_traits
+     = genum_plan cx_inv_dropped [] PFresh cx_traits
+  /\ ~ covers (iv_types cx_inv_dropped) cx_types cx_traits.
+Proof.
+  split; [exact cx_selfref|]. repeat split; try (vm_compute; reflexivity).
+  exact cx_dropped_not_covered.
+Qed.
 
 (* --- the hypotheses can be met ----------------------------------------------------------- *)
 
@@ -422,3 +542,16 @@ Print Assumptions C14_sort_ok_efield.
 Print Assumptions C14_iface_methods_sorted.
 Print Assumptions C14_iface_comment_lookup.
 Print Assumptions C14_sort_ok_method.
+Print Assumptions C14_prev_output.
+Print Assumptions C14_prev_output_is_fresh.
+Print Assumptions C14_prev_output_d8826bb.
+Print Assumptions C14_state_blind_d8826bb.
+Print Assumptions C14_stale_output_d8826bb_partial.
+Print Assumptions C14_stale_output_d8826bb_refuted.
+Print Assumptions C14_prev_output_orig_refuted.
+Print Assumptions C14_prev_output_orig_partial.
+Print Assumptions C14_name_bound.
+Print Assumptions C14_unused_name.
+Print Assumptions C14_gerror_whole.
+Print Assumptions C14_genum_whole.
+Print Assumptions C14_genum_whole_exists.
